@@ -326,6 +326,19 @@ def weave_fn(item_text, opts, spec, loops_spec, hints, log, what):
                 ordn = int(m.group(2)[1:]) if m.group(2) else 1
                 body_lo = toks[body_open].end
                 ms = list(rx.finditer(item_text, body_lo))
+                if which == "before":
+                    # a `before` anchor names the START of a statement / tail expression: the previous significant
+                    # character must be one of ; { } (so `d != 0` does not match inside `*d != 0`)
+                    def _at_stmt_start(mm):
+                        # token-level: skip whitespace and comments backwards
+                        prev = None
+                        for tk in toks:
+                            if tk.start >= mm.start():
+                                break
+                            if tk.kind not in ("ws", "comment", "doc"):
+                                prev = tk
+                        return prev is None or (prev.kind == "punct" and prev.text in ";{}")
+                    ms = [mm for mm in ms if _at_stmt_start(mm)]
                 if len(ms) < ordn:
                     log.anchor_lost.append("%s: hint anchor %r" % (what, m.group(1)))
                     continue
